@@ -31,6 +31,7 @@ class TCPServer:
         self.protocol: ProtocolWrapper
         self.send_lock = trio.Lock()
         self.idle_task = TrioSingleTask()
+        self._reading = True
         self.stream = stream
         self.state = state
 
@@ -73,6 +74,10 @@ class TCPServer:
                 await self.protocol.initiate()
                 await self.idle_task.restart(self._task_group, self._idle_timeout)
                 await self._read_data()
+                # The connection is over, don't keep it (and its
+                # tasks) alive until the idle timeout fires.
+                self._reading = False
+                await self.idle_task.stop()
         except OSError:
             pass
         finally:
@@ -91,7 +96,9 @@ class TCPServer:
             await self._close()
             await self.protocol.handle(Closed())
         elif isinstance(event, Updated):
-            if event.idle:
+            if event.idle and not self._reading:
+                pass  # Nothing more will be read, there is nothing to keep alive
+            elif event.idle:
                 await self.idle_task.restart(self._task_group, self._idle_timeout)
             else:
                 await self.idle_task.stop()
